@@ -574,7 +574,8 @@ void d_string_insert_c_array(DString * baseString, size_t pos, const char * inse
 
 			/* Shift following string to 'right' */
 			memmove(baseString->str + pos + bytes, baseString->str + pos, baseString->currentStringLength - pos);
-			strncpy(baseString->str + pos, insertedString, bytes);
+			// A byte array, not a C string (same as d_string_append_c_array)
+			memcpy(baseString->str + pos, insertedString, bytes);
 			baseString->currentStringLength = newSizeNeeded;
 			baseString->str[baseString->currentStringLength] = '\0';
 		}
